@@ -93,7 +93,8 @@ pub mod lightvars {
         pub fn assign_at_index(&mut self, _i: String, _v: String, _append: bool) -> Result<(), error::Error> { std::mem::forget(_i); std::mem::forget(_v); if self.readonly { return Err(error::ErrorKind::ReadonlyVariable.into()); } self.value = ShellValue::String(1); self.writes += 1; Ok(()) }
         pub fn unset_index(&mut self, _i: &str) -> Result<bool, error::Error> { if self.readonly { return Err(error::ErrorKind::ReadonlyVariable.into()); } self.writes += 1; Ok(true) }
     }
-    impl ShellValue { pub fn to_cow_str<S>(&self, _s: &S) -> std::borrow::Cow<'_, str> { std::borrow::Cow::Borrowed("") } }
+    impl ShellValue { pub fn to_cow_str<S>(&self, _s: &S) -> std::borrow::Cow<'_, str> { std::borrow::Cow::Borrowed("") }
+        pub fn is_set(&self) -> bool { !matches!(self, ShellValue::Unset(_)) } }
 }
 
 #[allow(unnameable_types, missing_docs, dead_code, unused)]
@@ -311,3 +312,23 @@ fn vk_c09_exported_global() { exported_set(false); }
 #[kani::proof]
 #[kani::unwind(6)]
 fn vk_c09_exported_local_over_global() { exported_set(true); }
+
+//@proof {'props': ['C09'], 'tier': 'quick', 'timeout': 900, 'uses': ['env_file'], 'bounds': 'global x with a value (exported? symbolic) shadowed in a function by a local x (exported? has a value? symbolic)', 'desc': 'what a child process is given for a name with two bindings, as in bash: the innermost binding that is exported and has a value - a local that is not exported, or has no value yet, does not hide an exported outer value from children, and an exported local with a value is what they see; never both'}
+#[kani::proof]
+#[kani::unwind(6)]
+fn vk_c09_exported_binding_seen_by_children() {
+    let mut env = ShellEnvironment::new();
+    let (ge, gs, le, ls): (bool, bool, bool, bool) = (kani::any(), true, kani::any(), kani::any());
+    let mk = |tag: u8, exported: bool, set: bool| ShellVariable { value: if set { ShellValue::String(0) } else { ShellValue::Unset(ShellValueUnsetType::Untyped) }, readonly: false, exported, tag, writes: 0 };
+    let r = env.add("x", mk(1, ge, gs), EnvironmentScope::Global); std::mem::forget(r);
+    env.push_scope(EnvironmentScope::Local);
+    let r = env.add("x", mk(2, le, ls), EnvironmentScope::Local); std::mem::forget(r);
+    // what the command composer does with the list: unset values are not passed
+    let (mut n, mut tag) = (0u8, 0u8);
+    for (k, v) in env.iter_exported() { if k.len() == 1 && k.as_bytes()[0] == b'x' && v.value().is_set() { n += 1; tag = v.tag; } }
+    kani::cover!(ge && gs && le && ls, "exported_local_shadows_exported_global");
+    kani::cover!(ge && gs && le && !ls, "valueless_exported_local");
+    let expect = if le && ls { 2 } else if ge && gs { 1 } else { 0 };
+    assert!(n == (expect != 0) as u8 && tag == expect, "C09.export.children_see_the_innermost_exported_binding_that_has_a_value");
+    std::mem::forget(env);
+}
